@@ -50,13 +50,33 @@ static inline bool failpoint(void *ra) {
   if (g_failat && (n == g_failat || (g_mode && n > g_failat))) { g_failed++; errno = ENOMEM; return true; }
   return false;
 }
+/* red zone: every block carries GUARD canary bytes behind the requested size (size kept in a side table keyed by address, so blocks
+ * of unknown origin are simply not checked); a write past the end of a block is seen when it is released or at a check point */
+#define GUARD 32
+#define NTAB (1 << 18)
+static struct { void *p; size_t n; } g_tab[NTAB];
+static volatile long g_overruns; static char g_overrun_what[200];
+static inline size_t slot_of(void *p) { return (size_t)(((uintptr_t)p >> 4) * 0x9E3779B97F4A7C15ULL >> 40) & (NTAB - 1); }
+static void tab_put(void *p, size_t n) { size_t i = slot_of(p); for (int k = 0; k < NTAB; k++, i = (i + 1) & (NTAB - 1)) if (!g_tab[i].p || g_tab[i].p == (void *)1) { g_tab[i].p = p; g_tab[i].n = n; memset((char *)p + n, 0xC5, GUARD); return; } }
+static long tab_find(void *p) { size_t i = slot_of(p); for (int k = 0; k < NTAB; k++, i = (i + 1) & (NTAB - 1)) { if (!g_tab[i].p) return -1; if (g_tab[i].p == p) return (long)i; } return -1; }
+static void guard_check(long i, const char *when) { const unsigned char *q = (const unsigned char *)g_tab[i].p + g_tab[i].n;
+  for (int k = 0; k < GUARD; k++) if (q[k] != 0xC5) { if (!g_overruns) snprintf(g_overrun_what, sizeof g_overrun_what, "write %d byte(s) past the end of a %zu-byte block (seen at %s)", k + 1, g_tab[i].n, when); g_overruns++; return; } }
+static void tab_del(void *p) { long i = tab_find(p); if (i >= 0) { guard_check(i, "release"); g_tab[i].p = (void *)1; } }
+static void guard_check_all(void) { for (size_t i = 0; i < NTAB; i++) if (g_tab[i].p && g_tab[i].p != (void *)1) guard_check((long)i, "check point"); }
+static void *xalloc(size_t n) { void *p = __libc_malloc(n + GUARD); if (p) { g_live++; tab_put(p, n); } return p; }
 extern "C" {
-void *malloc(size_t n) { if (failpoint(__builtin_return_address(0))) return NULL; void *p = __libc_malloc(n); if (p) g_live++; return p; }
-void *calloc(size_t a, size_t b) { if (failpoint(__builtin_return_address(0))) return NULL; void *p = __libc_calloc(a, b); if (p) g_live++; return p; }
-void *realloc(void *q, size_t n) { if (failpoint(__builtin_return_address(0))) return NULL; void *p = __libc_realloc(q, n); if (!q && p) g_live++; else if (q && !p && n == 0) g_live--; return p; }
-void free(void *p) { if (p) g_live--; __libc_free(p); }
-char *strdup(const char *s) { if (failpoint(__builtin_return_address(0))) return NULL; size_t n = strlen(s) + 1; char *p = (char *)__libc_malloc(n); if (p) { g_live++; memcpy(p, s, n); } return p; }
-char *strndup(const char *s, size_t m) { if (failpoint(__builtin_return_address(0))) return NULL; size_t n = strnlen(s, m); char *p = (char *)__libc_malloc(n + 1); if (p) { g_live++; memcpy(p, s, n); p[n] = 0; } return p; }
+void *malloc(size_t n) { if (failpoint(__builtin_return_address(0))) return NULL; return xalloc(n); }
+void *calloc(size_t a, size_t b) { if (failpoint(__builtin_return_address(0))) return NULL; if (b && a > (size_t)-1 / b - GUARD) return NULL; void *p = xalloc(a * b); if (p) memset(p, 0, a * b); return p; }
+void *realloc(void *q, size_t n) { if (failpoint(__builtin_return_address(0))) return NULL;
+  if (!q) return xalloc(n);
+  if (n == 0) { tab_del(q); g_live--; __libc_free(q); return NULL; }
+  long i = tab_find(q); if (i < 0) return __libc_realloc(q, n);           /* a block of unknown origin: not guarded */
+  guard_check(i, "realloc"); g_tab[i].p = (void *)1;
+  void *p = __libc_realloc(q, n + GUARD); if (p) tab_put(p, n); else tab_put(q, g_tab[i].n);
+  return p; }
+void free(void *p) { if (p) { g_live--; tab_del(p); } __libc_free(p); }
+char *strdup(const char *s) { if (failpoint(__builtin_return_address(0))) return NULL; size_t n = strlen(s) + 1; char *p = (char *)xalloc(n); if (p) memcpy(p, s, n); return p; }
+char *strndup(const char *s, size_t m) { if (failpoint(__builtin_return_address(0))) return NULL; size_t n = strnlen(s, m); char *p = (char *)xalloc(n + 1); if (p) { memcpy(p, s, n); p[n] = 0; } return p; }
 }
 static int phdr_cb(struct dl_phdr_info *i, size_t, void *) {
   if (!i->dlpi_name || !strstr(i->dlpi_name, "libxrl-verif")) return 0;
@@ -114,6 +134,27 @@ static void build_scenarios() {
   S("Crystal::GetCrystalsList",
     [] { xrl_error *e = NULL; int n = 0; char **l = Crystal_GetCrystalsList(NULL, &n, &e); double h = 0; if (l) { for (int k = 0; l[k]; k++) { h += strlen(l[k]) * (k + 1.0); xrlFree(l[k]); } xrlFree(l); } return c_done(!l, e, h, n); },
     [] { return guarded([&](Out &o) { std::vector<std::string> l = xrlpp::Crystal::GetCrystalsList(); double h = 0; for (size_t k = 0; k < l.size(); k++) h += l[k].size() * (k + 1.0); o.v[0] = h; o.v[1] = (double)l.size(); }); });
+  /* a caller-owned collection that has to grow: 2 slots, 14 additions.  Whatever allocation fails, a refused addition must leave the
+   * collection as it was (count, every accepted crystal retrievable), later additions must work, and nothing may be written past a block */
+  S("user crystal array growing from 2 to 14 entries",
+    [] { Out o; o.kind = 0; o.code = -1; o.v[0] = o.v[1] = o.v[2] = 0; char nm[16]; int acc = 0, refused = 0; bool ok[14]; std::string why;
+      Crystal_Array *a = Crystal_ArrayInit(2, NULL); if (!a) { o.kind = 5; o.code = XRL_ERROR_MEMORY; o.what = "ArrayInit refused"; return o; }
+      for (int j = 0; j < 14; j++) { snprintf(nm, sizeof nm, "Xv%02d", (j * 5) % 14); xrl_error *e = NULL; Crystal_Struct c = *g_si; c.name = nm; c.a += 0.01 * j;
+        int n0 = -1, n1 = -1; char **l = Crystal_GetCrystalsList(a, &n0, NULL); if (l) { for (int q = 0; l[q]; q++) xrlFree(l[q]); xrlFree(l); }
+        int rv = Crystal_AddCrystal(&c, a, &e); ok[j] = rv != 0;
+        l = Crystal_GetCrystalsList(a, &n1, NULL); if (l) { for (int q = 0; l[q]; q++) xrlFree(l[q]); xrlFree(l); }
+        if (rv) { acc++; if (e) why = "addition accepted together with an error"; if (n0 >= 0 && n1 >= 0 && n1 != n0 + 1) why = "count did not grow by one on an accepted addition"; }
+        else { refused++; if (!e) { if (!why.size()) why = "addition refused without an error"; } else { o.code = (int)e->code; if (!o.what.size()) o.what = e->message; }
+          if (n0 >= 0 && n1 >= 0 && n1 != n0) why = "count changed on a refused addition"; }
+        if (e) xrl_error_free(e); }
+      for (int j = 0; j < 14; j++) { snprintf(nm, sizeof nm, "Xv%02d", (j * 5) % 14); Crystal_Struct *g = Crystal_GetCrystal(nm, a, NULL);
+        if (ok[j] && !g) { /* the copy made by the lookup may itself hit the failpoint in 'from then on' mode: only a sticky loss counts */ Crystal_Struct *g2 = Crystal_GetCrystal(nm, a, NULL); if (!g2 && !g_mode) why = "an accepted crystal cannot be retrieved"; if (g2) Crystal_Free(g2); }
+        if (!ok[j] && g) why = "a refused crystal can be retrieved";
+        if (g) { o.v[0] += g->a; Crystal_Free(g); } }
+      Crystal_ArrayFree(a); o.v[1] = acc; o.v[2] = refused;
+      if (why.size()) { o.kind = 7; o.what = why; } else if (refused) o.kind = 5;
+      return o; },
+    [] { return guarded([&](Out &o) { (void)o; }); });
   S("Crystal::Bragg_angle on a wrapper object",
     [] { xrl_error *e = NULL; double v = Bragg_angle(g_aq, 10.0, 1, 1, 1, &e); return c_done(v == 0.0, e, v); },
     [] { return guarded([&](Out &o) { o.v[0] = g_sipp->Bragg_angle(10.0, 1, 1, 1); }); });
@@ -182,7 +223,18 @@ static void build_scenarios() {
 }
 
 /* ------------------------------------------------------------------ child protocol */
-struct Rec { int c_kind, c_code, w_kind; int c_leak, w_leak; int c_failed, w_failed; int same_value; long c_allocs, w_allocs; char c_what[160], w_what[160]; };
+
+struct Rec { int c_kind, c_code, w_kind; int c_leak, w_leak; int c_failed, w_failed; int same_value; long c_allocs, w_allocs; long c_over, w_over; char c_what[160], w_what[160], over_what[200]; };
+
+/* a child that dies still tells whether a red zone had been overwritten before (a crash after heap corruption is not the crash of an
+ * unchecked allocation) */
+static int g_child_fd = -1; static int g_side = 0;
+static void on_fatal(int sig) {
+  Rec r; memset(&r, 0, sizeof r); r.c_kind = r.w_kind = -1; g_armed = 0; g_overruns = 0; guard_check_all();
+  if (g_overruns && g_child_fd >= 0) { if (g_side == 0) { r.c_kind = 8; r.c_over = g_overruns; } else { r.w_kind = 8; r.w_over = g_overruns; }
+    snprintf(r.over_what, sizeof r.over_what, "%s", g_overrun_what); if (write(g_child_fd, &r, sizeof r) < 0) {} }
+  signal(sig, SIG_DFL); raise(sig);
+}
 
 static Out run_armed(const std::function<Out()> &f, long k, int mode, long *allocs, long *failed, int *leak) {
   /* 3-repetition rule on the live-block balance; the first armed run is the one reported */
@@ -191,6 +243,7 @@ static Out run_armed(const std::function<Out()> &f, long k, int mode, long *allo
     long l0 = g_live; g_libn = 0; g_failed = 0; g_failat = k; g_mode = mode; g_armed = 1;
     Out o = f();
     g_armed = 0;
+    guard_check_all();
     if (rep == 0) { first = o; *allocs = g_libn; *failed = g_failed; }
     o.what.clear(); o.what.shrink_to_fit();
     if (rep > 0 && g_live > l0) grew++;
@@ -200,7 +253,7 @@ static Out run_armed(const std::function<Out()> &f, long k, int mode, long *allo
 }
 
 static void js(FILE *o, const std::string &s) { fputc('"', o); for (char ch : s) { unsigned char c = (unsigned char)ch; if (c == '"' || c == '\\') { fputc('\\', o); fputc(c, o); } else if (c < 32 || c > 126) fputc('?', o); else fputc(c, o); } fputc('"', o); }
-static const char *KN[] = { "value", "invalid_argument", "bad_alloc", "runtime_error", "other-exception", "error", "failure-without-error" };
+static const char *KN[] = { "value", "invalid_argument", "bad_alloc", "runtime_error", "other-exception", "error", "failure-without-error", "inconsistent-state" };
 
 int main(int argc, char **argv) {
   if (argc < 3 || strcmp(argv[1], "run")) { fprintf(stderr, "usage: failmon run out.jsonl [maxk]\n"); return 2; }
@@ -227,18 +280,23 @@ int main(int argc, char **argv) {
       pid_t pid = fork();
       if (pid == 0) {
         close(pfd[0]); signal(SIGALRM, SIG_DFL); alarm(20);
+        g_child_fd = pfd[1]; signal(SIGSEGV, on_fatal); signal(SIGABRT, on_fatal); signal(SIGBUS, on_fatal);
         Rec r; memset(&r, 0, sizeof r); r.c_kind = -1; r.w_kind = -1;
         long a = 0, fl = 0; int lk2 = 0;
         if (k <= nc) {
           Out c = run_armed(sc.c, k, mode, &a, &fl, &lk2);
           r.c_kind = c.kind; r.c_code = c.code; r.c_leak = lk2; r.c_allocs = a; r.c_failed = (int)fl; snprintf(r.c_what, sizeof r.c_what, "%s", c.what.c_str());
+          r.c_over = g_overruns; snprintf(r.over_what, sizeof r.over_what, "%s", g_overrun_what);
           if (write(pfd[1], &r, sizeof r) < 0) {}          /* partial record: if the wrapper side dies the C verdict survives */
           if (k <= nw) {
+            g_side = 1;
             Out w = run_armed(sc.cpp, k, mode, &a, &fl, &lk2);
             r.w_kind = w.kind; r.w_leak = lk2; r.w_allocs = a; r.w_failed = (int)fl; snprintf(r.w_what, sizeof r.w_what, "%s", w.what.c_str());
+            r.w_over = g_overruns - r.c_over; if (r.w_over && !r.c_over) snprintf(r.over_what, sizeof r.over_what, "%s", g_overrun_what);
             r.same_value = !memcmp(c.v, w.v, sizeof c.v) || (c.v[0] != c.v[0] && w.v[0] != w.v[0]);
           }
         } else {
+          g_side = 1;
           Out w = run_armed(sc.cpp, k, mode, &a, &fl, &lk2);
           r.w_kind = w.kind; r.w_leak = lk2; r.w_allocs = a; r.w_failed = (int)fl; snprintf(r.w_what, sizeof r.w_what, "%s", w.what.c_str());
         }
@@ -263,6 +321,11 @@ int main(int argc, char **argv) {
         continue;
       }
       const Rec &r = recs[nrec - 1];
+      if (r.c_kind == 8) { viol("C04", "failpoint:heap-overrun:" + sc.name, std::string("with library allocation ") + std::to_string(k) + " failing the C calls " + r.over_what + ", then the process died"); continue; }
+      if (r.w_kind == 8) { viol("C18", "c18:failpoint:heap-overrun:" + sc.name, std::string("with library allocation ") + std::to_string(k) + " failing the wrapper path " + r.over_what + ", then the process died"); continue; }
+      if (r.c_over) viol("C04", "failpoint:heap-overrun:" + sc.name, std::string("with library allocation ") + std::to_string(k) + " failing the C calls " + r.over_what);
+      if (r.w_over && !r.c_over) viol("C18", "c18:failpoint:heap-overrun:" + sc.name, std::string("with library allocation ") + std::to_string(k) + " failing the wrapper path " + r.over_what);
+      if (r.c_kind == 7) viol("C14", "failpoint:collection-inconsistent:" + sc.name, std::string("with library allocation ") + std::to_string(k) + " failing: " + r.c_what);
       if (r.c_kind >= 0) {
         if (r.c_kind == 5 && r.c_code == XRL_ERROR_MEMORY) c_memerr++; else if (r.c_kind == 5) c_othererr++; else if (r.c_kind == 0) c_tolerated++;
         /* judged: the paths on which the library itself REPORTS the failure.  A call that "succeeds" although one of its allocations
